@@ -22,6 +22,10 @@
      root-skip-attrs    : the two _autoserialize_skip_* root attributes are metadata, not attributes
      rng-state-json     : (save side only: the bit-generator state is made JSON-able; it is opaque here)
      root-logger        : class_name "RootLogger" is restored like "Logger"
+     npscalar-complex   : complex NumPy scalars skip the value.item() branch and take the dill fallback
+                          (they are VOther values here, like Python complex)
+     rng-in-container   : the container decoder restores `_numpy_rng` groups (one helper, four callers)
+     dill-fallback-in-container : the container decoder unpickles gzip+dill payloads like the arrays loop
 
    Conventions.  Association lists model Python dicts / zarr attribute maps in insertion order;
    `set_key` is dict assignment (replace in place or append).  array_keys()/group_keys() of a real
@@ -219,8 +223,38 @@ Definition types_of (v : value) : list string :=
    end) ++ ["builtins.object"].
 
 Definition exact_ty (v : value) : string := hd "" (types_of v).
+
+(* virtual subclasses: the abstract base classes of `abc_domain` (those whose membership comes from
+   ABCMeta.register / inheritance, not from a structural __subclasshook__) that isinstance() accepts
+   for each value kind although no MRO lists them.  Table tied to the interpreter on every run. *)
+Definition abc_domain : list string :=
+  ["numbers.Number"; "numbers.Complex"; "numbers.Real"; "numbers.Rational"; "numbers.Integral";
+   "collections.abc.Sequence"; "collections.abc.MutableSequence"; "collections.abc.Mapping";
+   "collections.abc.MutableMapping"; "collections.abc.Set"; "collections.abc.MutableSet"].
+Definition abc_integral : list string :=
+  ["numbers.Number"; "numbers.Complex"; "numbers.Real"; "numbers.Rational"; "numbers.Integral"].
+Definition abc_real : list string := ["numbers.Number"; "numbers.Complex"; "numbers.Real"].
+Definition abc_complex : list string := ["numbers.Number"; "numbers.Complex"].
+Definition abcs_of (v : value) : list string :=
+  match v with
+  | VBool _ | VInt _ => abc_integral
+  | VFloat _ => abc_real
+  | VStr _ => ["collections.abc.Sequence"]
+  | VNpScalar dt _ =>
+    if mem dt ["int8"; "int16"; "int32"; "int64"; "uint8"; "uint16"; "uint32"; "uint64"] then abc_integral
+    else if mem dt ["float16"; "float32"; "float64"] then abc_real
+    else []                                               (* numpy.bool_ is not a numbers.Number *)
+  | VList _ => ["collections.abc.Sequence"; "collections.abc.MutableSequence"]
+  | VTuple _ => ["collections.abc.Sequence"]
+  | VSet _ => ["collections.abc.Set"; "collections.abc.MutableSet"]
+  | VDict _ => ["collections.abc.Mapping"; "collections.abc.MutableMapping"]
+  | VOther tys _ => if mem "builtins.complex" tys || mem "numpy.complexfloating" tys then abc_complex else []
+  | _ => []
+  end.
+(* every class t with isinstance(v, t), for t a concrete class or in abc_domain *)
+Definition isa (v : value) : list string := types_of v ++ abcs_of v.
 (* isinstance(v, skip_types) *)
-Definition inst_any (v : value) (st : list string) : bool := existsb (fun t => mem t (types_of v)) st.
+Definition inst_any (v : value) (st : list string) : bool := existsb (fun t => mem t (isa v)) st.
 
 (* ------------------------------------------------------------------ the dispatch chain *)
 (* the fifteen guards of _serialize_value as predicates on the value's Python capabilities
@@ -239,7 +273,7 @@ Definition g_pyscalar v :=
   | VNpScalar dt _ => String.eqb dt "float64"            (* np.float64 subclasses float *)
   | _ => false
   end.
-Definition g_dtype_item v :=                             (* hasattr dtype & item *)
+Definition g_dtype_item v :=                             (* hasattr dtype & item, not np.complexfloating *)
   match v with VNpScalar _ _ | VArr _ | VBlob BTensor _ _ _ => true | _ => false end.
 Definition g_path v := match v with VPath _ => true | _ => false end.
 Definition g_autoserialize v := match v with VObj _ _ _ => true | _ => false end.
@@ -548,8 +582,8 @@ Definition array_value (sa : sarr) : value :=
   | ABytes codec tys h => if String.eqb codec "dill" then VOther tys h else VArr (array_to_np sa)
   | _ => VArr (array_to_np sa)
   end.
-(* maybe_tensor in containers: always the raw ndarray *)
-Definition array_raw (sa : sarr) : value := VArr (array_to_np sa).
+(* maybe_tensor in containers (repaired: gzip+dill payloads are unpickled there too) *)
+Definition array_raw (sa : sarr) : value := array_value sa.
 
 Definition jstr_or (o : option jval) (d : string) : string :=
   match o with Some (JStr s) => s | _ => d end.
@@ -626,6 +660,7 @@ Definition cont_sub (dobj dcont : node -> res) (sub : node) : res :=
   else if truthy (lookup "_torch_tensor" a) then decode_blob BTensor sub
   else if truthy (lookup "_torch_logger" a) then RErr                  (* SummaryWriter: not modelled *)
   else if truthy (lookup "_python_logger" a) then decode_logger sub
+  else if truthy (lookup "_numpy_rng" a) then decode_rng sub         (* repaired: _restore_numpy_rng *)
   else RErr.
 
 (* max(int(k) for digit keys, default=-1) + 1 *)
@@ -897,7 +932,7 @@ Definition meta_ok (meta : smap jval) : bool :=
   nodupb (keys meta) && forallb (fun k => negb (mem k reserved)) (keys meta).
 
 (* in_cont: the value sits inside a list/tuple/set/dict, where _deserialize_container has no
-   branch for optimizers, schedulers, rngs and does not unpickle dill payloads *)
+   branch for optimizers and schedulers *)
 Fixpoint wf_value (in_cont : bool) (v : value) : bool :=
   match v with
   | VNone | VBool _ | VInt _ | VFloat _ | VStr _ | VPath _ => true
@@ -905,13 +940,13 @@ Fixpoint wf_value (in_cont : bool) (v : value) : bool :=
   | VArr a => arr_ok a
   | VBlob k _ meta _ => meta_ok meta && match k with BTensor | BModule => true | _ => negb in_cont end
   | VLogger c _ _ => String.eqb c "Logger" || String.eqb c "RootLogger"
-  | VRng bg _ => negb in_cont && mem bg known_bitgens
+  | VRng bg _ => mem bg known_bitgens
   | VList l | VTuple l | VSet l => forallb (wf_value true) l && nums_ok l
   | VDict l => nodupb (map fst l) && forallb (fun kv => key_ok (fst kv)) l
                && forallb (fun kv => wf_value true (snd kv)) l
   | VObj _ _ l => nodupb (map fst l) && forallb (fun kv => key_ok (fst kv)) l
                   && forallb (fun kv => wf_value false (snd kv)) l
-  | VOther _ _ => negb in_cont
+  | VOther _ _ => true
   end.
 
 Definition wf_obj (v : value) : bool :=
@@ -1076,7 +1111,8 @@ Definition ex_fields_common : list (string * value) :=
    ("sub", VObj "harness.c01_classes" "NodeB"
                 [("x", VInt 1); ("a", VArr ex_arr);
                  ("sub", VObj "harness.c01_classes" "NodeC" [("w", VTuple []); ("x", VStr "deep")])]);
-   ("z", VOther ["builtins.complex"] 99)].
+   ("z", VOther ["builtins.complex"] 99);
+   ("rc", VDict [("r", VRng "MT19937" (JOpaque 2)); ("c", VTuple [VOther ["numpy.complex64"; "numpy.complexfloating"] 98; VStr "c"])])].
 (* every constructor, depth 3, objects reached through attributes only (C14's quantifier) *)
 Definition ex_graph_attr : value := VObj "harness.c01_classes" "NodeA" ex_fields_common.
 (* the same plus an object inside a dict inside the root *)
